@@ -62,7 +62,11 @@ func (s *spec) chunk() int {
 	return 2000
 }
 
-func (s *spec) watchdog() time.Duration { return 5 * time.Minute }
+// watchdog bounds one worker process (one chunk of runs). It exists to turn a
+// worker that really hangs (a goroutine blocked in something the simulator does
+// not know) into exit 2; it is generous because a busy machine can slow the
+// file-system-heavy checks down by an order of magnitude.
+func (s *spec) watchdog() time.Duration { return 20 * time.Minute }
 
 func (s *spec) shrinkBudget(tier string) int {
 	if tier == "thorough" {
